@@ -461,6 +461,8 @@ func checkC18(c *runCtx) {
 				b = 3
 			}
 			csExplore(c, "gather-vs-restart", b+1, dl, nil)
+			csExplore(c, "gather-vs-gather", b+1, dl, nil)
+			csExplore(c, "gather-vs-gather-vs-restart", b, dl, nil)
 			csExplore(c, "gather-srflx-vs-restart", b, dl, nil)
 			csExplore(c, "addcandidate-after-cancel", 3, dl, func(zzmc.Failure) string { return "S6" })
 		} else {
